@@ -22,7 +22,7 @@ const modPath = "x.io/test"
 
 func module() pipe.Tree {
 	var a strings.Builder
-	a.WriteString("// Package a is order sensitive on purpose.\n// +gengo:deepcopy\n// +gengo:runtimedoc\npackage a\n\nimport (\n\t\"" + modPath + "/b\"\n\t\"" + modPath + "/c\"\n)\n\n")
+	a.WriteString("// Package a is order sensitive on purpose.\n// +gengo:deepcopy\n// +gengo:runtimedoc\npackage a\n\nimport (\n\t\"" + modPath + "/b\"\n\t\"" + modPath + "/c\"\n\t\"" + modPath + "/d\"\n)\n\nvar _ d.F01\n\n")
 	a.WriteString("// T is the package-level T.\ntype T struct {\n\t// B field\n\tB b.B\n\t// C field\n\tC c.C\n\t// M\n\t// of the thing (the first doc line is only the name)\n\tM map[string]int\n\tS []string\n}\n\n")
 	a.WriteString("func generic[T any](t T) T { return t }\n\nfunc local() int {\n\ttype T struct{ L int }\n\ttype Z int\n\treturn T{}.L + int(Z(0))\n}\n\n")
 	for i := 1; i <= 12; i++ {
@@ -31,7 +31,15 @@ func module() pipe.Tree {
 	a.WriteString("// Off is switched off but keeps a sub-option.\n// +gengo:g1=false\n// +gengo:g1:sub=v\n// +gengo:deepcopy=false\n// +gengo:deepcopy:interfaces=Object\ntype Off struct{ X int }\n\n")
 	a.WriteString("// Opt and opt differ only in case (a sort that ignores case leaves their order to chance).\ntype Opt struct{ V []int }\n\ntype opt struct{ W map[string]int }\n\nvar _ opt\n\ntype ROUTE int\n\ntype Route int\n\ntype route int\n\nvar _ route\n\n")
 	a.WriteString("// Sub has only a sub-option.\n// +gengo:g2:opt=1\ntype Sub struct{ X int }\n\ntype Alias = T\n")
-	return pipe.Tree{
+	t := pipe.Tree{}
+	// package d: many source files (the loader parses the files of a package concurrently) and one declaration for the
+	// partialstruct generator, which looks its declaration up by position; the scripted generators are switched off
+	// for it (they would pick up the generated type in the next run)
+	t["d/d.go"] = "// Package d has many files.\n// +gengo:g1=false\n// +gengo:g2=false\n// +gengo:vm=false\n// +gengo:defaulter=false\n// +gengo:g=false\n// +gengo:gx=false\npackage d\n\nimport \"" + modPath + "/c\"\n\n// cView is a partial view of c.C.\n// +gengo:partialstruct\ntype cView c.C\n\nvar _ cView\n"
+	for i := 1; i <= 11; i++ {
+		t[fmt.Sprintf("d/f%02d.go", i)] = fmt.Sprintf("package d\n\n// F%02d lives in a file of its own.\ntype F%02d int\n", i, i)
+	}
+	for k, v := range (pipe.Tree{
 		"go.mod":                 pipe.GoMod(modPath, "1.24"),
 		"root.go":                "// Package test sits in the module root and imports nothing of the module.\n// +gengo:deepcopy\npackage test\n\n// Root doc\ntype Root struct{ V []int }\n",
 		"a/a.go":                 a.String(),
@@ -43,7 +51,10 @@ func module() pipe.Tree {
 		"a/zz_generated.gx.go": "package a\n\nvar PreviousGX = 1\n",
 		"b/b.go":               "// +gengo:deepcopy\n// +gengo:runtimedoc\npackage b\n\nimport \"" + modPath + "/c\"\n\n// B doc\ntype B struct {\n\t// C doc\n\tC c.C\n\tN Named\n}\n\ntype Named map[string]string\n\ntype B2 int\n",
 		"c/c.go":               "// +gengo:deepcopy\npackage c\n\n// C doc\ntype C struct{ V []int }\n\ntype C2 string\n",
+	}) {
+		t[k] = v
 	}
+	return t
 }
 
 var clashing = []string{"x.io/a/util", "x.io/b/util", "y.io/util", "fmt", "foo/fmt", "k8s.io/api/core/v1", "k8s.io/apis/core/v1", "x/v2"}
@@ -83,7 +94,7 @@ func specInOrder(dir string, entry []string, all bool) pipe.Spec {
 			{Name: "g2", Default: pipe.Action{Render: "var V_$T_$G = 2\n", Imports: []string{"x.io/b/util", "x.io/a/util"}}},
 			{Name: "vm"},
 		},
-		Real: []string{"runtimedoc", "deepcopy", "defaulter"},
+		Real: []string{"runtimedoc", "deepcopy", "defaulter", "partialstruct"},
 	}
 }
 
